@@ -229,7 +229,7 @@ fn shrink_candidates(case: &Case) -> Vec<Case> {
 
 fn shrink(model: &mut Model, case: &Case, combos: &[Combo], check: &str) -> Case {
     let mut current = case.clone();
-    let mut budget = 120;
+    let mut budget: usize = std::env::var("C05_SHRINK_BUDGET").ok().and_then(|v| v.parse().ok()).unwrap_or(120);
     let mut scratch = Stats::default();
     loop {
         let mut progressed = false;
